@@ -165,9 +165,9 @@ _STMT_MODEL_NOTE = ("Trusted: Lean kernel; the hand-written statement model (lea
 PROPS["C01"] = dict(
     groups=["token", "escape", "quote"],
     lean_props=["SeaQ.Props.C01"],
-    lean_obligations=["SeaQ.Lemmas.Scan", "SeaQ.Lemmas.SafeBasics", "SeaQ.Lemmas.Ctx", "SeaQ.Lemmas.RenderCtx"],
+    lean_obligations=["SeaQ.Lemmas.Scan", "SeaQ.Lemmas.SafeBasics", "SeaQ.Lemmas.Ctx", "SeaQ.Lemmas.RenderCtx", "SeaQ.Lemmas.Plain", "SeaQ.Lemmas.RenderPlain"],
     technique="Lean 4 proof over the statement rendering model: for every piece list (unbounded), the values returned are the parameter pieces' values in order (no hypothesis), and under the decidable Safe discipline the engine-side reading of the parameterised text is the piece-wise one, so the placeholders outside quoted text are ?xn / $1..$n ascending, one per value; Safe itself is a theorem (render_safe, mutual structural induction over the 41 render functions) for every statement of the model without caller-supplied raw text, any bound values; model tied to the crate by differential runs of generated statements through build / build_any / build_collect*, with an independent reference-lexer oracle on the crate's output",
-    level_text="Machine-checked for every piece list, hence for the rendering of every statement of the model (any nesting): (textP ps).values = parameter pieces in order; Safe ps -> segment(text) = piece-wise items, placeholders = expectedMarks n. render_safe: for EVERY statement of the model (unbounded nesting, all five statement kinds, three dialects) whose pieces are individually well-formed (contentOK: no panic marker, representable inline constants, raw text (custom expressions / functions / operators / keywords) only when non-empty and free of quotes and marks, no CustomWithExpr template; bound values arbitrary) the rendering is Safe, so C01_all_statements holds with no Safe hypothesis. For statements with caller-supplied raw text Safe is evaluated by the model per generated case (plain raw text: must hold). The evidence counts how many generated cases meet the theorem's hypothesis.",
+    level_text="Machine-checked for every piece list, hence for the rendering of every statement of the model (any nesting): (textP ps).values = parameter pieces in order; Safe ps -> segment(text) = piece-wise items, placeholders = expectedMarks n. render_safe / render_safe_user: for EVERY statement of the model (unbounded nesting, all five statement kinds, three dialects) whose caller-supplied pieces are individually well-formed (the renderer's own text is proved plain: renderer_text_plain; contentOK: no panic marker, representable inline constants, raw text (custom expressions / functions / operators / keywords) only when non-empty and free of quotes and marks, no CustomWithExpr template; bound values arbitrary) the rendering is Safe, so C01_all_statements holds with no Safe hypothesis. For statements with caller-supplied raw text Safe is evaluated by the model per generated case (plain raw text: must hold). The evidence counts how many generated cases meet the theorem's hypothesis.",
     level_note=_STMT_MODEL_NOTE,
     design_ref="§6 C01",
     scope="all statements of the model without caller-supplied raw text (theorem, no Safe hypothesis); all piece lists under Safe; generated statements for the tie",
@@ -176,7 +176,7 @@ PROPS["C01"] = dict(
 PROPS["C02"] = dict(
     groups=["token", "escape", "quote"],
     lean_props=["SeaQ.Props.C02"],
-    lean_obligations=["SeaQ.Lemmas.Scan", "SeaQ.Lemmas.SafeBasics", "SeaQ.Lemmas.Ctx", "SeaQ.Lemmas.RenderCtx", "SeaQ.Props.C01"],
+    lean_obligations=["SeaQ.Lemmas.Scan", "SeaQ.Lemmas.SafeBasics", "SeaQ.Lemmas.Ctx", "SeaQ.Lemmas.RenderCtx", "SeaQ.Lemmas.Plain", "SeaQ.Lemmas.RenderPlain", "SeaQ.Props.C01"],
     technique="Lean 4 proof over the statement rendering model: for every Safe piece list, reading the parameterised text the way the engine does and re-printing it with each placeholder replaced by the literal of its value gives exactly the inline text (C02_substitute); the crate's entry points (to_string, build, build_any, build_collect, build_collect_any, String and SqlWriterValues writers) are compared with the model's two texts and with each other on every generated statement, rendering twice and Debug-equality before/after rendering included",
     level_text="Machine-checked: substitute d (textP ps).sql (values.map lit) = some (textI ps) for every Safe piece list (unbounded nesting); C02_all_statements: for every statement of the model without caller-supplied raw text (contentOK; bound values arbitrary) with no Safe hypothesis, via render_safe. Entry-point agreement, repeatability and non-modification are checked on every generated statement (differential / metamorphic, not a theorem). Execution of both forms on SQLite is part of C07.",
     level_note=_STMT_MODEL_NOTE,
@@ -188,7 +188,7 @@ from stages import stage_c07
 PROPS["C07"] = dict(
     groups=["token", "escape", "quote"],
     lean_props=["SeaQ.Props.C02"],
-    lean_obligations=["SeaQ.Lemmas.Scan", "SeaQ.Lemmas.SafeBasics", "SeaQ.Lemmas.Ctx", "SeaQ.Lemmas.RenderCtx", "SeaQ.Props.C01"],
+    lean_obligations=["SeaQ.Lemmas.Scan", "SeaQ.Lemmas.SafeBasics", "SeaQ.Lemmas.Ctx", "SeaQ.Lemmas.RenderCtx", "SeaQ.Lemmas.Plain", "SeaQ.Lemmas.RenderPlain", "SeaQ.Props.C01"],
     extra=[stage_c07],
     technique="Lean 4 statement rendering model (SQLite dialect) tied to the crate by differential runs; the machine-checked part is that the inline and the parameterised form are the same statement (C02_substitute) with the placeholders bound one-to-one (C01_placeholders); what the statement DOES is decided by execution: every generated statement over a fixed schema is run on a real SQLite (python sqlite3) as inline text, as parameterised text with bound values and as an independently written fully explicit rendering of the same builder calls, and rows, RETURNING rows and table contents are compared; WHERE clauses built by call histories (and_where / cond_where sequences incl. empty any / all) are executed against the explicit conjunction; every convenience method of the builders (expression operators, joins, FROM forms, ORDER BY families, locks, unions, windows, insert / update helpers: ~115 methods) is compared with the general form it abbreviates on random arguments (same Debug structure, same rendering on three backends)",
     level_text="Partial by nature: execution semantics live in the engine. Proved (Lean): both rendering modes are one statement for every Safe rendering, and every statement without caller-supplied raw text renders Safe (render_safe). Validated by execution on the engine: acceptance of both forms and equality of effect with the explicit reference rendering, for generated statements over the property's SQLite feature list.",
@@ -225,7 +225,7 @@ from stages import stage_c13
 PROPS["C13"] = dict(
     groups=["token", "escape", "quote", "coltypes"],
     lean_props=["SeaQ.Props.C13", "SeaQ.Props.Ddl"],
-    lean_obligations=["SeaQ.Lemmas.Scan", "SeaQ.Lemmas.SafeBasics", "SeaQ.Lemmas.Ctx", "SeaQ.Lemmas.RenderCtx", "SeaQ.Lemmas.DdlCtx", "SeaQ.Lemmas.Balance", "SeaQ.Lemmas.RenderBalance", "SeaQ.Lemmas.DdlBalance"],
+    lean_obligations=["SeaQ.Lemmas.Scan", "SeaQ.Lemmas.SafeBasics", "SeaQ.Lemmas.Ctx", "SeaQ.Lemmas.RenderCtx", "SeaQ.Lemmas.DdlCtx", "SeaQ.Lemmas.Balance", "SeaQ.Lemmas.RenderBalance", "SeaQ.Lemmas.DdlBalance", "SeaQ.Lemmas.Plain", "SeaQ.Lemmas.RenderPlain", "SeaQ.Lemmas.DdlPlain", "SeaQ.Props.C01"],
     extra=[stage_c13],
     technique="Lean 4 model of the schema-statement renderer (Model/Ddl: CREATE / ALTER / DROP / RENAME TABLE, CREATE / DROP INDEX, foreign keys; SQLite dialect here) tied to the crate by differential runs of generated schema statements through build / to_string / build_any, with theorems for every statement of the model: the engine's lexer reads the rendered text item by item as written (ddl_read: declared names as single quoted identifiers, strings as single literals), parentheses are balanced (ddl_balanced), CREATE TABLE is head + the ', '-separated list of all declared columns, keys, foreign keys and checks in order + tail (create_items, create_complete), PRIMARY KEY / AUTOINCREMENT are moved to the end adjacent and in this order and an auto-increment integer column is declared exactly 'integer'; plus the proof over the SQLite type-name table regenerated from src/backend/sqlite/table.rs on every run: for every supported ColumnType variant, every template its arm can write and every value of the length / precision / scale parameters, SQLite's five-rule affinity of the written name is the intended one (digits can neither contain nor complete a letter pattern: hasSub_digits); execution and the catalogue are decided on the engine: generated scenarios of CREATE TABLE / CREATE INDEX / ALTER / RENAME / DROP are executed on SQLite and PRAGMA table_xinfo / index_list / index_xinfo / foreign_key_list, CAST-observed affinity and evaluated defaults are compared with the catalogue expected from the scenario description",
     level_text="Machine-checked for every schema statement of the model (unbounded lists, nested expressions): ddl_safe / ddl_read (lexical well-formedness under the decidable per-piece condition contentOK), create_items / create_complete, sqlite_pk_autoincrement_last, sqlite_autoincrement_integer; and affinity_intended for all parameter values over the regenerated table (translator: seaq-translate group coltypes; an arm it does not understand fails the check). Validated by execution: acceptance of every generated schema statement and equality of the reported catalogue (columns in order, nullability, default, primary key, uniqueness, autoincrement, checks, index columns / direction / uniqueness / partial, foreign-key columns and actions) with the declaration.",
@@ -237,7 +237,7 @@ PROPS["C13"] = dict(
 PROPS["C14"] = dict(
     groups=["token", "escape", "quote", "coltypes"],
     lean_props=["SeaQ.Props.C14", "SeaQ.Props.Ddl"],
-    lean_obligations=["SeaQ.Lemmas.Scan", "SeaQ.Lemmas.SafeBasics", "SeaQ.Lemmas.Ctx", "SeaQ.Lemmas.RenderCtx", "SeaQ.Lemmas.DdlCtx", "SeaQ.Lemmas.Balance", "SeaQ.Lemmas.RenderBalance", "SeaQ.Lemmas.DdlBalance"],
+    lean_obligations=["SeaQ.Lemmas.Scan", "SeaQ.Lemmas.SafeBasics", "SeaQ.Lemmas.Ctx", "SeaQ.Lemmas.RenderCtx", "SeaQ.Lemmas.DdlCtx", "SeaQ.Lemmas.Balance", "SeaQ.Lemmas.RenderBalance", "SeaQ.Lemmas.DdlBalance", "SeaQ.Lemmas.Plain", "SeaQ.Lemmas.RenderPlain", "SeaQ.Lemmas.DdlPlain", "SeaQ.Props.C01"],
     technique="Lean 4 model of the schema-statement renderer (Model/Ddl: CREATE / ALTER / DROP / RENAME / TRUNCATE TABLE, CREATE / DROP INDEX, ADD / DROP FOREIGN KEY, Postgres CREATE / ALTER / DROP TYPE and CREATE / DROP EXTENSION; MySQL and Postgres dialects here) tied to the crate by differential runs of generated schema statements through build / to_string / build_any, with theorems for every statement of the model: the engine's lexer reads the rendered text item by item as written (ddl_read), parentheses are balanced (ddl_balanced), CREATE TABLE is head + the ', '-separated list of all declared columns, keys, foreign keys and checks in order + tail (create_items, create_complete), every MySQL column specification is written in the order given (mysql_specs_all), unsigned types are the signed type + UNSIGNED, Postgres auto-increment columns are declared smallserial / serial / bigserial and the specification writes nothing; plus Lean 4 proofs over the MySQL / Postgres type-name tables regenerated from src/backend/{mysql,postgres}/table.rs on every run: every template of every supported ColumnType arm names a type the dialect defines in a form it defines (for all parameter values), parameters appear in the written name as their decimal digits and in declaration order, UNSIGNED follows exactly the unsigned variants, auto-increment is AUTO_INCREMENT / smallserial-serial-bigserial; whole statements are decided by a reference DDL grammar per dialect: the parse tree of every generated schema statement must equal the tree expected from the scenario (each column one type and each specification once, table-level elements, options, ALTER option separators, index / foreign-key / type / extension statements)",
     level_text="Machine-checked for every schema statement of the model: ddl_safe / ddl_read (lexical well-formedness under contentOK), create_items / create_complete, mysql_specs_all, mysql_unsigned, postgres_autoincrement_serial; type mapping obligations over the regenerated tables, lifted to all parameter values (params_in_text). Validated on generated statements: acceptance by the reference DDL grammar and tree equality with the declaration. The grammars and the per-dialect lists of defined types are the trusted specification (no MySQL / Postgres engine in the sandbox). That the text is a sentence of the dialect's grammar beyond the lexical level is decided by the reference grammar on generated statements, not by a theorem.",
     level_note="The schema-statement model (Model/Ddl.lean) is hand-written from the crate's builders and validated against the crate on every run (4 000 generated statements per quick run, panics included); Trusted: Lean kernel; seaq-translate (syn) for the tables; SeaQ.Props.C14.mysqlDefined / postgresDefined (transcribed from the manuals); harness/src/c14.rs (reference grammar and expected trees) with the reference lexers.",
